@@ -234,6 +234,8 @@ val fz : ops -> z -> car
 
 val fpow : ops -> car -> nat -> car
 
+val fzpow : ops -> car -> z -> car
+
 val fsum : ops -> car list -> car
 
 val qcOps : ops
@@ -243,6 +245,8 @@ type 'k cx = { re : 'k; im : 'k }
 val c0 : ops -> car cx
 
 val c1 : ops -> car cx
+
+val ci : ops -> car cx
 
 val cadd : ops -> car cx -> car cx -> car cx
 
@@ -419,6 +423,95 @@ val random_sine_raises : z -> bool -> bool -> bool -> bool
 
 val stack_sub_raises : z -> z list -> bool
 
+val map2 : ('a1 -> 'a2 -> 'a3) -> 'a1 list -> 'a2 list -> 'a3 list
+
+val imap_from : nat -> (nat -> 'a1 -> 'a2) -> 'a1 list -> 'a2 list
+
+val imap : (nat -> 'a1 -> 'a2) -> 'a1 list -> 'a2 list
+
+val dop : ops -> car -> car -> z list -> car list
+
+val laplace_sym : ops -> nat -> car list -> car
+
+val gip_sym : ops -> car list -> nat -> car list -> car
+
+val poly_sym : ops -> car list -> car list -> car
+
+val sym_advection : ops -> car list -> car list -> car
+
+val quad_form : ops -> car list list -> car list -> car
+
+val sym_diffusion : ops -> car list list -> car list -> car
+
+val sym_advection_diffusion :
+  ops -> car list -> car list list -> car list -> car
+
+val sym_dispersion : ops -> bool -> car list -> car list -> car
+
+val sym_hyper_diffusion : ops -> bool -> car -> car list -> car
+
+val sym_burgers : ops -> car -> car list -> car
+
+val ones : ops -> car list -> car list
+
+val sym_kdv : ops -> bool -> bool -> car -> car -> car -> car list -> car
+
+val sym_ks : ops -> car -> car -> car list -> car
+
+val sym_navier_stokes : ops -> car -> car -> car list -> car
+
+val sym_allen_cahn : ops -> car -> car -> car list -> car
+
+val sym_fisher : ops -> car -> car -> car list -> car
+
+val sym_cahn_hilliard : ops -> car -> car -> car -> car list -> car
+
+val sym_gray_scott : ops -> car -> car -> nat -> car list -> car
+
+val sym_swift_hohenberg : ops -> car -> car -> car list -> car
+
+val set0 : ops -> car list -> car list -> car list
+
+val normalize_coefficients : ops -> car -> car -> car list -> car list
+
+val denormalize_coefficients : ops -> car -> car -> car list -> car list
+
+val normalize_convection_scale : ops -> car -> car -> car -> car
+
+val denormalize_convection_scale : ops -> car -> car -> car -> car
+
+val normalize_gradient_norm_scale : ops -> car -> car -> car -> car
+
+val denormalize_gradient_norm_scale : ops -> car -> car -> car -> car
+
+val normalize_polynomial_scales : ops -> car -> car -> car list -> car list
+
+val denormalize_polynomial_scales : ops -> car -> car -> car list -> car list
+
+val reduce_normalized_coefficients_to_difficulty :
+  ops -> car -> car -> car list -> car list
+
+val extract_normalized_coefficients_from_difficulty :
+  ops -> car -> car -> car list -> car list
+
+val reduce_normalized_convection_scale_to_difficulty :
+  ops -> car -> car -> car -> car -> car
+
+val extract_normalized_convection_scale_from_difficulty :
+  ops -> car -> car -> car -> car -> car
+
+val reduce_normalized_gradient_norm_scale_to_difficulty :
+  ops -> car -> car -> car -> car -> car
+
+val extract_normalized_gradient_norm_scale_from_difficulty :
+  ops -> car -> car -> car -> car -> car
+
+val reduce_normalized_nonlinear_scales_to_difficulty :
+  ops -> car -> car -> car -> car list -> car list
+
+val extract_normalized_nonlinear_scales_from_difficulty :
+  ops -> car -> car -> car -> car list -> car list
+
 val aff : z -> z -> z -> z
 
 val affx : z -> z -> z -> z
@@ -448,5 +541,19 @@ val run_c02 : z -> q list -> q list
 val zs : q list -> z list
 
 val run_c20 : z -> q list -> q list
+
+val cr : q -> car
+
+val crs : q list -> car list
+
+val ciQ : car
+
+val run_sym : q list -> q list
+
+val qcs : q list -> car list
+
+val unqcs : car list -> q list
+
+val run_conv : q list -> q list
 
 val run : z -> q list -> q list
